@@ -181,6 +181,22 @@ Section Pipeline.
     unfold entry. destruct (b64_decode enc) as [raw|e]; [|reflexivity]. rewrite src_parse_is_model. reflexivity.
   Qed.
 
+  (* the two logout validators over the translated parseResponse *)
+  Theorem source_logout_response_pipeline enc :
+    norm_pm (G_ValidateEncodedLogoutResponsePOST src_parse dsig cfg now enc)
+    = PVal (norm_res (entry model_parse enc (validate_logout_response_tree dsig cfg))).
+  Proof.
+    rewrite G_ValidateEncodedLogoutResponsePOST_is_model.
+    unfold entry. destruct (b64_decode enc) as [raw|e]; [|reflexivity]. rewrite src_parse_is_model. reflexivity.
+  Qed.
+  Theorem source_logout_request_pipeline enc :
+    norm_pm (G_ValidateEncodedLogoutRequestPOST src_parse dsig cfg now enc)
+    = PVal (norm_res (entry model_parse enc (validate_logout_request_tree dsig cfg))).
+  Proof.
+    rewrite G_ValidateEncodedLogoutRequestPOST_is_model.
+    unfold entry. destruct (b64_decode enc) as [raw|e]; [|reflexivity]. rewrite src_parse_is_model. reflexivity.
+  Qed.
+
   (* accepted by the composed source <-> accepted by the model, with the same struct; never a panic *)
   Corollary source_inbound_pipeline_accepts_iff enc (r : response) :
     G_ValidateEncodedResponse src_parse dsig src_decrypt_all cfg now enc = PVal (Ok (Some r))
